@@ -11,6 +11,9 @@ multiple of the alignment boundary (known finding M6, only in corpus/dpool/defec
 Main streams use alignment boundaries {1,2,4,8,16} (M6: absolute alignment for larger boundaries
 depends on the allocator).  calloc products that overflow size_t are included (NULL since the
 overflow guard was added; corpus/dpool/calloc_overflow.ops).  `fail=` only with focus "all".
+
+Sparse observation mode: `obs=sparse` on the constructor line suppresses the content sweep after every
+operation (a third of the histories of every focus); `observe` prints it on demand.
 """
 import itertools
 
@@ -65,10 +68,41 @@ def confs(tier):
     return out
 
 
+def sparsify(hist, step):
+    """the same history in sparse observation mode: obs=sparse on the constructor, an `observe`
+    every `step` operations and one before the destructor"""
+    out = [hist[0] + " obs=sparse"]
+    body, last = hist[1:], []
+    if body and body[-1].split()[0].startswith("destroy"):
+        body, last = body[:-1], [hist[-1]]
+    for i, op in enumerate(body, 1):
+        out.append(op)
+        if i % step == 0:
+            out.append("observe")
+    return out + ["observe"] + last
+
+
+def mix_sparse(hists, rng=None):
+    """roughly a third of the histories in sparse mode"""
+    out = []
+    for i, h in enumerate(hists):
+        if (rng.random() < 1 / 3) if rng is not None else (i % 3 == 1):
+            out.append(sparsify(h, rng.randint(5, 15) if rng is not None else 5 + i % 11))
+        else:
+            out.append(h)
+    return out
+
+
 class DpoolGen:
     name = "dpool"
 
     def small_scope(self, tier, focus=None):
+        return mix_sparse(self._small_scope(tier, focus))
+
+    def random(self, rng, n, tier, focus=None):
+        return mix_sparse(self._random(rng, n, tier, focus), rng)
+
+    def _small_scope(self, tier, focus=None):
         out = []
         sizes = (1, 4, 9) if tier == "quick" else (0, 1, 2, 4, 8, 9, 16)
         maxlen = 3
@@ -104,7 +138,7 @@ class DpoolGen:
                         "malloc 3", "pool_reset", "malloc 3", "destroy"])
         return out
 
-    def random(self, rng, n, tier, focus=None):
+    def _random(self, rng, n, tier, focus=None):
         out = []
         cs = confs(tier)
         for _ in range(n):
